@@ -543,6 +543,8 @@ def check(spec):
     sizes = [len(v) for v in leaf_groups_all.values()]
     if 1 in sizes:
         classes.append('cluster_of_one_cell')
+    if sizes and max(sizes) > 255:
+        classes.append('cluster_of_more_than_255_cells')
     if 0 in sizes:
         classes.append('empty_leaf')
     if len(lab.lab_idx) < len(lab.labels):
